@@ -222,7 +222,12 @@ int main(void)
 	fresh();
 	while ((r = h_next())) {
 		long long a, b, c, d, e;
-		if (r == 2) { fresh(); continue; }
+		if (r == 2) {
+#ifdef DEC_STATS
+			/* lets checks/C01.py attribute the (recoverable) bounds reports on stderr to a case */
+			fprintf(stderr, "DECCASE %s\n", h_ntok > 1 ? h_tok[1] : "?");
+#endif
+			fresh(); continue; }
 		if (!dec && !H_IS(0, "delete")) { printf("rej deleted\n"); continue; }
 		if (H_IS(0, "l") && h_ntok == 4 && hexnum(1, &a) && NUM(2, b)) {
 			int len; uint8_t *p = h_hex(h_tok[3], &len);
